@@ -174,6 +174,15 @@ func cmdCheck(args []string) {
 				all = append(all, oblRes{Name: ref + "/vacuous", Kind: "vacuity", Proved: false, Output: "no obligations generated"})
 			}
 			c.Notes = append(c.Notes, x.Notes...)
+			failed := false
+			for _, r := range rs {
+				if r.Verdict != exec.Proved {
+					failed = true
+				}
+			}
+			if failed {
+				break // the remaining cases of the split would fail the same way: keep the check time bounded
+			}
 		}
 		funcsDone = append(funcsDone, ref)
 	}
